@@ -767,6 +767,12 @@ def handover(prog, run, only_methods=None):
             ret_names = max(cands, key=lambda ns: sum(1 for n_ in ns if n_))
             if any(len(ns) != len(ret_names) for ns in cands):
                 ret_names = None
+        if ret_names is not None:
+            # what a position of the returned tuple IS follows from the routine's interface (Fn, Xi, Phi, order, then the covariances), not
+            # from the names of its local variables
+            roles_by_pos = ["Fn", "Xi", "Phi", "order_out", "Fn_cov", "Xi_cov", "Phi_cov"]
+            if len(ret_names) <= len(roles_by_pos):
+                ret_names = [roles_by_pos[i_] if n_ is not None or True else None for i_, n_ in enumerate(ret_names)]
         unpack = None
         for s in ast.walk(m.node):
             if isinstance(s, ast.Assign) and s.value is call and isinstance(s.targets[0], ast.Tuple):
